@@ -24,22 +24,22 @@ Section Generic.
      that produced the checkpoint ([info_faithful] below: before list, rerun list or nested info). *)
   Theorem before_never_runs_fresh : forall fuel cs0 (gs0 : GS) x env o log env',
     start zero fold getr pre exec before after fuel cs0 gs0 x env = (o, log, env') ->
-    forall ev, In ev log -> memN (fst (fst ev)) before = false.
+    forall ev, In ev log -> memN (ev_key ev) before = false.
   Proof. exact (start_no_before zero fold getr pre exec before after). Qed.
 
   Theorem before_never_runs_unresumed : forall fuel sm (c : @checkpoint V CS GS SCP) env o log env',
     resume zero fold getr pre exec before after fuel sm c env = (o, log, env') ->
-    forall ev, In ev log -> memN (fst (fst ev)) before = true -> In (fst (fst ev)) (map fst (cp_inputs c)).
+    forall ev, In ev log -> memN (ev_key ev) before = true -> In (ev_key ev) (map fst (cp_inputs c)).
   Proof. exact (resume_before_only_pending zero fold getr pre exec before after). Qed.
 
   Theorem before_never_runs_fresh_eager : forall fuel cs0 (gs0 : GS) x sched env o log env',
     estart zero fold getr pre exec before after false fuel cs0 gs0 x sched env = (o, log, env') ->
-    forall ev, In ev log -> memN (fst (fst ev)) before = false.
+    forall ev, In ev log -> memN (ev_key ev) before = false.
   Proof. exact (estart_no_before zero fold getr pre exec before after). Qed.
 
   Theorem before_never_runs_unresumed_eager : forall fuel sm (c : @checkpoint V CS GS SCP) sched env o log env',
     eresume zero fold getr pre exec before after false fuel sm c sched env = (o, log, env') ->
-    forall ev, In ev log -> memN (fst (fst ev)) before = true -> In (fst (fst ev)) (map fst (cp_inputs c)).
+    forall ev, In ev log -> memN (ev_key ev) before = true -> In (ev_key ev) (map fst (cp_inputs c)).
   Proof. exact (eresume_before_only_pending zero fold getr pre exec before after). Qed.
 
   (* ---- after_stops_successors ----
@@ -115,13 +115,13 @@ End Generic.
 Theorem before_never_runs_fresh_model :
   forall (ex : N -> option ncp -> value -> env -> tex * env) (gi : N) (g : gspec) x e o log e',
     seg_fresh ex gi g x e = (o, log, e') ->
-    forall ev, In ev log -> memN (fst (fst ev)) (gs_before g) = false.
+    forall ev, In ev log -> memN (ev_key ev) (gs_before g) = false.
 Proof. exact seg_fresh_no_before. Qed.
 
 Theorem before_never_runs_unresumed_model :
   forall (ex : N -> option ncp -> value -> env -> tex * env) (gi : N) (g : gspec) sm c e o log e',
     seg_resumed ex gi g sm c e = (o, log, e') ->
-    forall ev, In ev log -> memN (fst (fst ev)) (gs_before g) = true -> In (fst (fst ev)) (map fst (cp_inputs c)).
+    forall ev, In ev log -> memN (ev_key ev) (gs_before g) = true -> In (ev_key ev) (map fst (cp_inputs c)).
 Proof. exact seg_resumed_before_only_pending. Qed.
 
 (* non-vacuity, and the position the tests never reach: interrupt-before on the direct successor of
@@ -138,7 +138,7 @@ Theorem before_never_runs_fresh_v0_refuted :
        init_chans value (gs_graph g) = Ok cs0 ->
        start_v0 VNil (ifold (gs_graph g)) (igetr (gs_graph g)) (pre_fn g) ex (gs_before g) (gs_after g)
                 (seg_fuel (gs_graph g)) cs0 (gs0 g) x e = (o, log, e') ->
-       forall ev, In ev log -> memN (fst (fst ev)) (gs_before g) = false).
+       forall ev, In ev log -> memN (ev_key ev) (gs_before g) = false).
 Proof. exact start_v0_runs_before_node. Qed.
 
 Print Assumptions before_never_runs_fresh.
